@@ -197,6 +197,10 @@ func main() {
 		ev.Argv = args
 	}
 
+	if rule.Mode == "fault" && rule.PreMs > 0 {
+		// stay alive without reading stdin for a while (the writer fills the pipe and blocks), then fail
+		time.Sleep(time.Duration(rule.PreMs) * time.Millisecond)
+	}
 	if rule.Mode == "fault" && rule.BeforeExec {
 		if rule.Stderr != "" {
 			fmt.Fprint(os.Stderr, rule.Stderr)
